@@ -215,7 +215,7 @@ func gen(r *vlib.R, n int, tier string, emit func(string)) {
 		n--
 	}
 	// 3. the real Server behind the single-stepped engines
-	srvRuns := 2
+	srvRuns := 4
 	if thorough {
 		srvRuns = 20
 	}
@@ -238,9 +238,9 @@ func gen(r *vlib.R, n int, tier string, emit func(string)) {
 		}
 	}
 	// 5. live server, real sockets, many clients (the search for an interleaving)
-	runs, nu, nt, per := 2, 20, 6, 250
+	runs, nu, nt, per := 6, 24, 8, 400
 	if thorough {
-		runs, nu, nt, per = 6, 30, 10, 420
+		runs, nu, nt, per = 16, 40, 16, 800
 	}
 	for i := 0; i < runs; i++ {
 		emit(fmt.Sprintf("stress run %d %d %d %d %d %d %d", r.U64()%1000000, nu, nt, per,
